@@ -155,7 +155,10 @@ static inline double vf_fmul(double a, double b) { return vf_u2d(__CPROVER_unint
 #define VF_CALL_R(T, r, f, ...) T r = f(__VA_ARGS__)
 #define VF_CALL_V(f, ...) f(__VA_ARGS__)
 #else
-#define VF_CALL_R(T, r, f, ...) VF_ASSUME(VF_PRE_##f); VF_SNAP_##f T r = f(__VA_ARGS__); VF_POST_##f(r)
-#define VF_CALL_V(f, ...) VF_ASSUME(VF_PRE_##f); VF_SNAP_##f f(__VA_ARGS__); VF_POST_##f(0)
+/* two levels so that a macro passed as the function name is expanded before token pasting */
+#define VF_CALL_R(T, r, f, ...) VF_CALL_R2(T, r, f, __VA_ARGS__)
+#define VF_CALL_V(f, ...) VF_CALL_V2(f, __VA_ARGS__)
+#define VF_CALL_R2(T, r, f, ...) VF_ASSUME(VF_PRE_##f); VF_SNAP_##f T r = f(__VA_ARGS__); VF_POST_##f(r)
+#define VF_CALL_V2(f, ...) VF_ASSUME(VF_PRE_##f); VF_SNAP_##f f(__VA_ARGS__); VF_POST_##f(0)
 #endif
 #endif
